@@ -276,7 +276,7 @@ fn start_scenario(n: usize) {
     let extra: Option<Box<[Node]>> = if with_extra { Some(Box::new([tok_node(2, has[2], toks[2])])) } else { None };
     let mut q = PutQuery::new(request_of(0), extra);
     let r = q.start(&mut s, &closest[..n]);
-    let sent = unsafe { SENT_N };
+    let sent = unsafe { SENT_N.v };
     if n == 0 {
         assert!(matches!(r, Err(PutError::Query(PutQueryError::NoClosestNodes))), "C08.O3 NoClosestNodes iff no closest nodes");
         assert!(sent == 0, "C08.O3 nothing sent without closest nodes");
@@ -287,7 +287,7 @@ fn start_scenario(n: usize) {
             let included = if i < 2 { i < n } else { with_extra };
             if included && has[i] {
                 // the expect-th datagram goes to node i with node i's token
-                let (to, tk) = unsafe { (SENT_TO[expect], SENT_TOKEN[expect]) };
+                let (to, tk) = unsafe { (SENT_TO.v[expect], SENT_TOKEN.v[expect]) };
                 assert!(to == Some(SocketAddrV4::new([10, 0, 0, 1 + i as u8].into(), 1000 + i as u16)), "C08.O3 request addressed to the token-bearing node");
                 assert!(tk == toks[i], "C08.O3 each node gets its own token");
                 expect += 1;
@@ -352,7 +352,7 @@ fn c08_o3b_start_without_closest() {
     let mut q = PutQuery::new(request_of(0), extra);
     let r = q.start(&mut s, &[]);
     assert!(matches!(r, Err(PutError::Query(PutQueryError::NoClosestNodes))), "C08.O3 NoClosestNodes iff no closest nodes");
-    assert!(unsafe { SENT_N } == 0 && !q.started(), "C08.O3 nothing sent without closest nodes");
+    assert!(unsafe { SENT_N.v } == 0 && !q.started(), "C08.O3 nothing sent without closest nodes");
     kani::cover!(with_extra && has);
     kani::cover!(!with_extra);
     std::mem::forget(r);
